@@ -10,6 +10,7 @@
 //@ note fragment of rawAttrScan: the scanning loop (everything after the three initialisations), entered in the state reached after 1 or 2 attributes, so that the second and third attribute (pair index, vector growth, colon list growth with its copy loop) are within reach of short inputs; the whole function from the start is scan_rawattr_ig_w
 //@ note W: complete for every sequence of length <= NIN of the tokens name, '=', quoted value, white space, '/', '>', '<', end of input after the a0-th attribute value (the remaining token kinds are covered from the start state in scan_rawattr_ig_w) (tokens: name, malformed name, '=', quoted value, unterminated quote, white space, '/', '>', '<', other character, end of input), every initial size of the pair vector, colon list capacity 1 or 2 (so that the growth path is taken)
 //@ note token-level stubs (contracts/scan_rawattr_harness.inc): getQName and basicAttrValueScan consume one token (their own syntax is proved in rdr_getQName / scan_attvalue_basic_*); scanEq and resizeRawAttrColonList are the real functions; KVStringPair / RefVectorOf are recording sinks; emitError message arguments are not modelled
+//@ note colon positions and the previous contents of the pair vector / colon list are distinct concrete markers, not symbolic values: rawAttrScan only stores and copies them, it never inspects them
 #define VERIF_DEFINE_GHOSTS
 #include "verif_prelude.h"
 //@ include scan_rawattr_harness.inc
